@@ -18,7 +18,7 @@ from gwcs import wcs as gw
 
 PROP = "C11"
 LEAN_MODULE = "GwcsProofs.C11"
-SOURCES = ["GwcsModel/Tab.lean", "GwcsProofs/C11.lean"]
+SOURCES = ["GwcsModel/Tab.lean", "GwcsModel/Remap.lean", "GwcsProofs/C11.lean", "GwcsProofs/C11b.lean"]
 THEOREMS = [
     "Gwcs.Tab.groups_pairwise_disjoint",
     "Gwcs.Tab.groups_cover",
@@ -31,6 +31,10 @@ THEOREMS = [
     "Gwcs.Tab.step_le_sampling",
     "Gwcs.Tab.insertAll_sorted",
     "Gwcs.Tab.naxis_holds_box",
+    "Gwcs.Remap.block_placed",
+    "Gwcs.Remap.celestial_rows_clean",
+    "Gwcs.Remap.other_rows_untouched",
+    "Gwcs.Remap.missing_lat_zero_leaks",
 ]
 RULE = ("case = (WCS assembled from blocks sky 2->2, spectral/time/generic 1->1, coupled pair 2->2, slit 2->3, fan 1->2, fan 1->3 with 1..4 "
         "pixel axes, permutation of world axes, bounding box incl. offset/fractional, scalar or per-axis sampling, method to_fits_tab or "
@@ -232,6 +236,34 @@ def impl(case):
         if bad.any():
             j = int(np.flatnonzero(bad)[0])
             worst.append({"axis": ax, "pix": pts[:, j].tolist(), "reader": float(a[j]), "gwcs": float(b[j]), "nbad": int(bad.sum()), "n": int(bad.size)})
+    # the celestial pair (carried by the linear part: the blocks' sky transform is an exact TAN, so a degree-1 fit reproduces it)
+    sky_axes = [i for i, ct in enumerate(res["ctype"]) if not ct.endswith("-TAB")]
+    if case["method"] == "mixed" and len(sky_axes) == 2:
+        lon_ax = sky_axes[0] if res["ctype"][sky_axes[0]][:2] in ("RA", "GL") else sky_axes[1]
+        lat_ax = sky_axes[1] if lon_ax == sky_axes[0] else sky_axes[0]
+        l1, b1, l2, b2 = map(np.radians, (rv[lon_ax], rv[lat_ax], gv[lon_ax], gv[lat_ax]))
+        sep = np.degrees(2 * np.arcsin(np.sqrt(np.clip(np.sin((b2 - b1) / 2) ** 2 + np.cos(b1) * np.cos(b2) * np.sin((l2 - l1) / 2) ** 2, 0, 1))))
+        j = int(np.nanargmax(sep))
+        # to_fits fits the linear/SIP part about the box centre to within max_pix_error = 0.25 pixel (its documented default)
+        tol = 0.5 * max(bl["scale"] for bl in case["blocks"] if bl["kind"] in ("sky", "slit"))
+        if not (sep[j] <= tol):
+            worst.append({"axis": lon_ax, "pix": pts[:, j].tolist(), "reader": [float(rv[lon_ax][j]), float(rv[lat_ax][j])],
+                          "gwcs": [float(gv[lon_ax][j]), float(gv[lat_ax][j])], "nbad": int((~(sep <= tol)).sum()), "n": int(sep.size)})
+    if case["method"] == "mixed" and len(sky_axes) == 2:
+        # the linear-matrix bookkeeping of the celestial pair: cards as written, and the rows the reader assembled from them
+        import re as _re
+        kind = "CD" if any(_re.fullmatch(r"CD\d_\d", k) for k in cards) else "PC"
+        dep = [j for j in range(npx) if corr[lon_ax, j] or corr[lat_ax, j]]          # pixel axes feeding the pair (independent of gwcs's lists)
+        if len(dep) == 2:
+            nlon, nlat, iax1, iax2 = lon_ax + 1, lat_ax + 1, dep[0] + 1, dep[1] + 1
+            wr = {}
+            for k, v in cards.items():
+                m_ = _re.fullmatch(r"(PC|CD)(\d)_(\d)", k)
+                if m_ and int(m_.group(2)) in (nlon, nlat):
+                    wr["%s_%s" % (m_.group(2), m_.group(3))] = [m_.group(1), float(v)]
+            mat = fw.wcs.cd if fw.wcs.has_cd() else fw.wcs.get_pc()
+            res["remap"] = {"kind": kind, "nlon": nlon, "nlat": nlat, "iax1": iax1, "iax2": iax2, "n": int(naxes_f), "written": wr,
+                            "reader_lon": [float(x) for x in mat[nlon - 1]], "reader_lat": [float(x) for x in mat[nlat - 1]]}
     res["node_mismatch"] = worst
     res["nodes_checked"] = int(pts.shape[1])
     # between nodes: the reader's value lies within the values at the corners of the cell
@@ -353,15 +385,44 @@ def request(case, res):
         return None
     samp = case["sampling"]
     samp = [samp] * res["npix"] if isinstance(samp, (int, float)) else samp
-    return {"sets": res["corr_cols"],
+    main = {"tag": "main", "sets": res["corr_cols"],
             "axes": [{"lo": C.q2w(Fraction(lo)), "hi": C.q2w(Fraction(hi)), "s": C.q2w(Fraction(s))} for (lo, hi), s in zip(res["bb"], samp)],
             "used": [], "insert": list(range(res["npix"]))[::-1]}
+    reqs = [main]
+    rm = res.get("remap")
+    if rm:
+        wr = rm["written"]
+        blk = [[wr.get("%d_%d" % (r_, c_), [None, None])[1] for c_ in (rm["iax1"], rm["iax2"])] for r_ in (rm["nlon"], rm["nlat"])]
+        if all(v is not None for row in blk for v in row):
+            reqs.append({"tag": "remap", "remap": {"kind": rm["kind"], "nlon": rm["nlon"], "nlat": rm["nlat"], "iax1": rm["iax1"], "iax2": rm["iax2"],
+                                                   "n": rm["n"], "b": [[C.q2w(Fraction(v)) for v in row] for row in blk]}})
+    return {"multi": reqs}
 
 
 def compare(case, res, resp):
     if "ok" not in resp:
         return "model error %s" % resp
-    m = resp["ok"]
+    parts = {x["tag"]: x["resp"] for x in resp["ok"]}
+    for t, x in parts.items():
+        if "ok" not in x:
+            return "model error (%s) %s" % (t, x)
+    rm = res.get("remap")
+    if rm and "remap" not in parts:
+        return "celestial block: not all four elements (%d|%d, %d|%d) are written: %s" % (rm["nlon"], rm["nlat"], rm["iax1"], rm["iax2"], rm["written"])
+    if rm:
+        mm = parts["remap"]["ok"]
+        want = {"%d_%d" % (c_[0], c_[1]): float(C.w2q(c_[2])) for c_ in mm["cards"]}
+        got = {k: v[1] for k, v in rm["written"].items()}
+        if any(v[0] != rm["kind"] for v in rm["written"].values()):
+            return "celestial rows mix PC and CD cards: %s" % rm["written"]
+        if want != got:
+            return "matrix cards of the celestial rows: header %s, model %s" % (got, want)
+        for nm_ in ("lon", "lat"):
+            mrow = [float(C.w2q(v)) for v in mm[nm_ + "_row"]]
+            # (wcslib parses the card text: a value keeps about 15 significant digits)
+            if len(mrow) != len(rm["reader_" + nm_]) or any(abs(x - y) > 1e-12 * max(abs(x), abs(y)) for x, y in zip(mrow, rm["reader_" + nm_])):
+                return "%s row of the matrix the reader assembled: wcslib %s, model reader %s" % (nm_, rm["reader_" + nm_], mrow)
+    m = parts["main"]["ok"]
     if m["groups"] != sorted(res["components"]) and sorted(m["groups"]) != sorted(res["components"]):
         return "separable groups: model %s, connected components %s" % (m["groups"], res["components"])
     c = res["cards"]
@@ -433,10 +494,21 @@ def gen(rng, tier):
             npx += 3 if k == "chain" else 2 if k in ("sky", "pair", "slit", "collapse") else 1
         nw = sum({"sky": 2, "pair": 2, "slit": 3, "fan2": 2, "fan3": 3, "chain": 3}.get(b["kind"], 1) for b in blocks)
         case = {"blocks": blocks, "method": rng.choice(["tab", "mixed", "mixed"])}
+        crossed = it % 8 == 3
+        if crossed:
+            # the celestial pair's world numbers both outside the numbers of the pixel axes that feed it (and the other way round)
+            sky = dict(blocks[0], kind="sky") if blocks[0]["kind"] in ("sky", "slit") else \
+                {"kind": "sky", "crpix": [float(rng.randint(2, 8)), float(rng.randint(2, 8))], "scale": rng.choice([0.01, 0.05]),
+                 "lon": float(rng.randint(40, 300)), "lat": float(rng.randint(-60, 60)), "c": [1.0, 0.5, 0.125]}
+            one = [{"kind": k1, "c": [float(rng.randint(1, 9)), rng.choice([0.5, 0.25, 1.5]), rng.choice([0.03125, 0.0625, 0.125])]}
+                   for k1 in rng.sample(["spec", "time", "gen"], 2)]
+            blocks = [sky] + one if rng.random() < 0.5 else one + [sky]
+            npx, nw = 4, 4
+            case = {"blocks": blocks, "method": "mixed", "perm": [2, 3, 0, 1] if rng.random() < 0.7 else [2, 3, 1, 0]}
         if nw < npx:
             case.update(expect="runtimeErr", why="more pixel than world axes")
         # permutation of world axes: celestial lon/lat keep their relative order
-        if rng.random() < 0.6 and nw > 1:
+        if rng.random() < 0.6 and nw > 1 and not crossed:
             perm = list(range(nw))
             rng.shuffle(perm)
             case["perm"] = perm
